@@ -259,8 +259,8 @@ func checkSessionAPIOwnMethods(c *Ctx, r *Report) {
 	for i := 0; i < ms.Len(); i++ {
 		sel := ms.At(i)
 		fn, ok := sel.Obj().(*types.Func)
-		if !ok {
-			continue
+		if !ok || !fn.Exported() {
+			continue // unexported shared helpers (one transmission, layer building) are not API
 		}
 		sig, ok := fn.Type().(*types.Signature)
 		if !ok {
